@@ -75,4 +75,84 @@ def stackOf (o : IndentOpts) : Nat → List Frame
   | 0 => []
   | d+1 => { indent := 1 + (d + 1) * o.cols, braceIndent := 1 + d * o.cols } :: stackOf o d
 
+/-! ## with brace-style offsets: `indent_brace` and `indent_switch_case`
+
+Observed frame handling of `indent_text()` for the closed-form brace-style options: the braces of a *statement* body
+(`if`/`else`/loops/`switch`) sit `indent_brace` right of the statement, its contents a further `indent_columns`; the
+case labels of a `switch` sit `indent_switch_case` right of its braces and everything under them a further
+`indent_columns`; function bodies and bare blocks are not moved. -/
+
+inductive BKind
+  | plain     -- function body, bare block
+  | stmt      -- body of if / else / for / while / do
+  | switch    -- body of switch
+  | virt      -- brace-less body (virtual braces)
+deriving Repr, DecidableEq
+
+inductive ITok2
+  | stmt | openK (k : BKind) | closeB | vopen | vclose | caseL
+deriving Repr, DecidableEq
+
+structure IndentOpts2 where
+  cols : Nat := 8
+  brace : Nat := 0         -- indent_brace
+  switchCase : Nat := 0    -- indent_switch_case
+deriving Repr
+
+def offB (o : IndentOpts2) : BKind → Nat
+  | .stmt => o.brace | .switch => o.brace | _ => 0
+
+def offIn (o : IndentOpts2) : BKind → Nat
+  | .switch => o.switchCase | _ => 0
+
+def indentStep2 (o : IndentOpts2) (stk : List Frame) : ITok2 → List Frame × Option Nat
+  | .stmt => (stk, some (topIndent stk))
+  | .openK k => ({ indent := topIndent stk + offB o k + o.cols + offIn o k, braceIndent := topIndent stk + offB o k } :: stk,
+                 some (topIndent stk + offB o k))
+  | .vopen => ({ indent := topIndent stk + o.cols, braceIndent := topIndent stk } :: stk, none)
+  | .closeB => (stk.tail, some (topBrace stk))
+  | .vclose => (stk.tail, none)
+  | .caseL => (stk, some (topBrace stk + o.switchCase))
+
+def indentRun2 (o : IndentOpts2) : List Frame → List ITok2 → List (Option Nat)
+  | _, [] => []
+  | stk, t :: ts => (indentStep2 o stk t).2 :: indentRun2 o (indentStep2 o stk t).1 ts
+
+/-- column of the statements directly inside the blocks `ks` (innermost first) -/
+def colIn (o : IndentOpts2) : List BKind → Nat
+  | [] => 1
+  | k :: ks => colIn o ks + offB o k + o.cols + offIn o k
+
+/-- column of the braces of the innermost block -/
+def braceCol (o : IndentOpts2) : List BKind → Nat
+  | [] => 1
+  | k :: ks => colIn o ks + offB o k
+
+def framesOf (o : IndentOpts2) : List BKind → List Frame
+  | [] => []
+  | k :: ks => { indent := colIn o (k :: ks), braceIndent := braceCol o (k :: ks) } :: framesOf o ks
+
+/-- the specification: columns from the stack of block *kinds* alone -/
+def absRun (o : IndentOpts2) : List BKind → List ITok2 → List (Option Nat)
+  | _, [] => []
+  | ks, .stmt :: ts => some (colIn o ks) :: absRun o ks ts
+  | ks, .openK k :: ts => some (braceCol o (k :: ks)) :: absRun o (k :: ks) ts
+  | ks, .vopen :: ts => none :: absRun o (.virt :: ks) ts
+  | ks, .closeB :: ts => some (braceCol o ks) :: absRun o ks.tail ts
+  | ks, .vclose :: ts => none :: absRun o ks.tail ts
+  | ks, .caseL :: ts => some (braceCol o ks + o.switchCase) :: absRun o ks ts
+
+/-- number of braced statement bodies (switch bodies included) among the enclosing blocks -/
+def nStmt : List BKind → Nat
+  | [] => 0
+  | .stmt :: ks => nStmt ks + 1
+  | .switch :: ks => nStmt ks + 1
+  | _ :: ks => nStmt ks
+
+/-- number of switch bodies among the enclosing blocks -/
+def nSwitch : List BKind → Nat
+  | [] => 0
+  | .switch :: ks => nSwitch ks + 1
+  | _ :: ks => nSwitch ks
+
 end Unc
